@@ -173,3 +173,56 @@ reader_harnesses! {
     c13_tsv_reader_n: true, Some(b'n');
     c13_tsv_reader_a: true, Some(b'a');
 }
+
+// ------------------------------------------------------------------------------------------
+// C14: rows - what `tocsv` writes for rows of empty strings / nulls is read back as those rows
+// (cells restricted to null and "" so that no number parsing is reached; points)
+// ------------------------------------------------------------------------------------------
+/// cell kinds of a row: 0 = null, 1 = the empty text string, 9 = anything else
+fn cell_kinds(row: &jaq_json::Val, out: &mut [u8; 3]) -> usize {
+    match row {
+        jaq_json::Val::Arr(a) => {
+            let mut i = 0;
+            while i < a.len() && i < 3 {
+                out[i] = match &a[i] {
+                    jaq_json::Val::Null => 0,
+                    jaq_json::Val::TStr(s) if s.is_empty() => 1,
+                    _ => 9,
+                };
+                i += 1;
+            }
+            a.len()
+        }
+        _ => 99,
+    }
+}
+fn rows_case(text: &[u8], tsv: bool, expect: &[&[u8]]) {
+    let rows = core::mem::ManuallyDrop::new(crate::read::tabular::verif_rows(text, tsv));
+    assert!(rows.len() == expect.len());
+    let mut r = 0;
+    while r < expect.len() {
+        let mut k = [7u8; 3];
+        let n = cell_kinds(&rows[r], &mut k);
+        assert!(n == expect[r].len());
+        let mut i = 0;
+        while i < n {
+            assert!(k[i] == expect[r][i]);
+            i += 1;
+        }
+        r += 1;
+    }
+}
+#[kani::proof]
+#[kani::unwind(8)]
+fn c14_csv_rows_quoted_empty() {
+    // what `[""] | tocsv` writes: one row holding one empty string (not "no row")
+    rows_case(b"\"\"", false, &[&[1]]);
+}
+#[kani::proof]
+#[kani::unwind(8)]
+fn c14_csv_rows_basic() {
+    rows_case(b"", false, &[]);
+    rows_case(b"\n", false, &[&[0]]);
+    rows_case(b",", false, &[&[0, 0]]);
+    rows_case(b"\"\",\n\"\"\n", false, &[&[1, 0], &[1]]);
+}
